@@ -186,6 +186,26 @@ func (c02) Generate(idx int, r *core.Rand, tier string) core.Script {
 			s.Content.Candidates = append(s.Content.Candidates, hx(highCandidate(w)))
 		}
 	}
+	// near misses of the r+k=n rule: r+k = n + delta for a structured delta must be accepted
+	if solvedAt < 0 && ref.KeyValid(d) && w.Chance(1, 8) {
+		k1 := randScalar(w)
+		delta := new(big.Int).Lsh(big.NewInt(1), uint(w.PickInt(0, 1, 8, 31, 32, 33, 47, 63, 64, 65, 96, 100, 127, 128, 160, 192, 224, 240)))
+		if w.Chance(1, 2) {
+			delta.Neg(delta)
+		}
+		// r = n + delta - k1  (as integers), e = r - x1
+		rr := new(big.Int).Add(ref.SM2N, delta)
+		rr.Sub(rr, k1)
+		if rr.Sign() > 0 && rr.Cmp(ref.SM2N) < 0 {
+			ev := new(big.Int).Sub(rr, ref.MulG(k1).X)
+			ev.Mod(ev, ref.SM2N)
+			s.Content.Candidates = append(s.Content.Candidates, hx(ref.Pad32(k1)))
+			s.E = hx(ref.Pad32(ev))
+			s.Content.TailSeed = w.Uint64()
+			s.Note = "near-miss r+k=n+delta"
+			return s
+		}
+	}
 	// the accepted nonce; optionally solve e for a short r or s (only when no other
 	// candidate already fixed e)
 	k := randScalar(w)
